@@ -22,10 +22,11 @@ prop(
     ],
     rule="layer 1: one evaluation = one arrival order (30 per input quick, 200 thorough; serial order is canonical, the reverse "
          "order is always included) of the real report stream produced by pint's checks on a generated input (2-5 rule files "
-         "sharing pooled rules so that Dedup has work, symlinks, parse failures, >= 2 rule{} blocks with custom severities); "
+         "sharing pooled rules so that Dedup has work, symlinks, parse failures, 0-8 group-level labels per group, per-rule `team` "
+         "labels checked against {{ $alert }}, >= 2 rule{} blocks with custom severities plus same-check severity ladders); "
          "layers 2/3: one evaluation = one invocation of the (race-instrumented) binary with --workers in {1,2,3,7,16,64} x "
          "GOMAXPROCS in {1,2,16} (6 settings per input quick, all 18 thorough; (1,1) is canonical), a third of the inputs online "
-         "against a fake Prometheus. Non-trivial: >= 8 reports, >= 2 files with reports, >= 1 duplicate group, >= 2 reports with "
+         "against a fake Prometheus (1-2 servers), a third with an extra 50-200 rule group so that workers really overlap. Non-trivial: >= 8 reports, >= 2 files with reports, >= 1 duplicate group, >= 2 reports with "
          "equal (path, first line). distinct = distinct report multisets (layer 1) / distinct inputs (layers 2/3).",
     level_text="Generated-input search. Layer 1 owns the schedule of the only cross-goroutine channel (the report stream) and "
                "demands byte-identical console/JSON output, CountBySeverity and duplicate folding for every drawn arrival order "
